@@ -271,6 +271,20 @@ def main(tier, seed):
         mp = {f: target(f, k, NEST, hd[f]) for f, k in zip(files, kinds)}
         if len(set(mp.values())) == len(mp):
             cases.append({"layout": "nested-child", "base": nbase, "mapping": mp, "fmts": ["xxh64"]})
+    # a root history and a nested one that each hold a file with the SAME history-relative path (s/a.txt), renamed in one run
+    TW = {"p": DIR, "p/s": DIR, "p/s/a.txt": b"content of a in the nested history", "s": DIR, "s/a.txt": b"content of a in the root history",
+          "q": DIR, "q/c.txt": b"content of c, distinct too"}
+    try:
+        tbase = ops.build(ctx, TW, [c("p", ["xxh64"]), c("", ["xxh64"])], expect=[0, 0])
+    except ops.ScenarioFailure as f:
+        eng.notes.setdefault("skipped_scenarios", []).append(str(f)[:300])
+        tbase = None
+    tfiles = sorted(p for p, v in TW.items() if v is not DIR)
+    thd = {"p/s/a.txt": ["p/s", "p"], "s/a.txt": ["s", "q"], "q/c.txt": ["q", "s"]}
+    for kinds in itertools.product(KINDS, repeat=3) if tbase is not None else []:
+        mp = {f: target(f, k, TW, thd[f]) for f, k in zip(tfiles, kinds)}
+        if len(set(mp.values())) == len(mp):
+            cases.append({"layout": "nested-twins", "base": tbase, "mapping": mp, "fmts": ["xxh64"]})
     # whole folders renamed / moved (same format): plain folders, nested roots one and two levels down
     FT = {"p": DIR, "p/a.txt": b"content of a", "p/b.txt": b"content of b (distinct)", "p/s": DIR, "p/s/d.txt": b"content of d", "q": DIR,
           "q/c.txt": b"content of c, distinct too"}
